@@ -38,6 +38,11 @@ def run(ctx):
         if sum(1 for c in got if "ops" in c) < 100:
             raise RuntimeError("GEN %s produced too few cases" % name)
         cases += got
+    # -coverage is off (it multiplies the run time); every printed case is one transition: count them per operation
+    for c in cases:
+        if "ops" in c:
+            nm = "GenSpans.%s.%s" % ("SOps" if c["kind"] == "S" else "DOps", c["ops"][-1]["op"])
+            ctx.actions[nm] = ctx.actions.get(nm, 0) + 1
     out = ctx.impl("harness/spans_driver.py", ["--mode", "replay"], input_obj=cases)
     st = out["stats"]
     for c in cases:
